@@ -224,8 +224,128 @@ def handleFCOn (op : String) (c : Coll) (rest : List (List String)) : String :=
     | _, _, _ => "bad-op"
   | _, _ => "bad-op"
 
+/-! ### observe – mutate – observe histories (`fc.hist`)
+
+`fc.hist K A | shapes || step || step …`.  `A` = 1 when the implementation's FeatureCollection keeps the caller's list
+object (measured; the unchanged library does, by design); a Track never does (its constructor stores a sorted copy).
+Steps are either *mutations done by the user, not by the library* — plain Python list operations on the collection's
+`geoshapes` (`g`), on the list handed to the constructor (`a`) or on a sibling collection built from that list (`s`), and
+in-place member updates `setdt` / `setprop` — or *observations* `o.<op> …` answered by the ordinary handlers on the
+current list, i.e. exactly what a freshly built collection over the same members would answer. -/
+
+structure HState where
+  c : Coll
+  arg : List Shape
+  al1 : Bool
+  c2 : Option Coll := none
+  al2 : Bool := false
+
+/-- Python list mutations; `none` = the call raises (IndexError) -/
+def listMut (l : List Shape) : List String → Option (Option (List Shape))
+  | ["set", i, tok] => do
+      let k ← parseNat i; let x ← parseShape tok
+      some (if k < l.length then some (l.set k x) else none)
+  | ["pop", i] => do
+      let k ← parseNat i
+      some (if k < l.length then some (l.eraseIdx k) else none)
+  | "append" :: ts => (parseShapes ts).map fun xs => some (l ++ xs)
+  | ["insert", i, tok] => do
+      let k ← parseNat i; let x ← parseShape tok
+      some (some (l.take k ++ [x] ++ l.drop k))
+  | "slice" :: a :: b :: ts => do
+      let i ← parseNat a; let j ← parseNat b; let xs ← parseShapes ts
+      some (some (l.take i ++ xs ++ l.drop (max i j)))
+  | ["reverse"] => some (some l.reverse)
+  | ["sortdesc"] => some (some (l.mergeSort fun x y => decide (x.startD ≥ y.startD)))
+  | ["clear"] => some (some [])
+  | _ => none
+
+def HState.get (st : HState) (t : String) : Option (List Shape) :=
+  if t == "g" then some st.c.shapes else if t == "a" then some st.arg
+  else if t == "s" then st.c2.map (·.shapes) else none
+
+/-- write `l` to target `t` and to every list object aliased with it -/
+def HState.put (st : HState) (t : String) (l : List Shape) : HState :=
+  let inGroup (u : String) : Bool :=
+    u == "a" || (u == "g" && st.al1) || (u == "s" && st.al2 && st.c2.isSome)
+  let hit (u : String) : Bool := u == t || (inGroup t && inGroup u)
+  { st with
+    c := if hit "g" then { st.c with shapes := l } else st.c
+    arg := if hit "a" then l else st.arg
+    c2 := if hit "s" then st.c2.map (fun c => { c with shapes := l }) else st.c2 }
+
+/-- an in-place update of the member object `id`, seen through every list that holds it -/
+def HState.update (st : HState) (id : Int) (f : Shape → Shape) : HState :=
+  let m (l : List Shape) := l.map fun x => if x.id == id then f x else x
+  { st with c := { st.c with shapes := m st.c.shapes }, arg := m st.arg,
+            c2 := st.c2.map fun c => { c with shapes := m c.shapes } }
+
+def obsRest (op : String) (ts : List String) : List (List String) :=
+  if ts.isEmpty then (if op == "bounds" || op == "geospan" then [[]] else []) else splitAt "|" ts
+
+def histStep (st : HState) : List String → Option (HState × String)
+  | ["setdt", i, dt] => do
+      let id ← parseInt i; let d ← parseDt dt
+      some (st.update id (fun x => { x with dt := d }), "-")
+  | ["setprop", i, k, v] => do
+      let id ← parseInt i; let pv ← parsePVal v
+      some (st.update id (fun x => { x with props := assocSet x.props k pv }), "-")
+  | ["sib", k2, a2] => do
+      let t2 ← parseTag k2
+      match Coll.build t2 st.arg with
+      | .error e => some ({ st with c2 := none, al2 := false }, e)
+      | .ok c2 => some ({ st with c2 := some c2, al2 := t2 == .fc && a2 == "1" }, showColl c2)
+  | ["copy"] =>
+      match Coll.build st.c.tag st.c.shapes with
+      | .error e => some ({ st with c2 := none, al2 := false }, e)
+      | .ok c2 => some ({ st with c2 := some c2, al2 := false }, showColl c2)
+  | ["arg"] => some (st, "A " ++ showShapes st.arg)
+  | ["sibiter"] => some (st, match st.c2 with | some c2 => showColl c2 | none => "none")
+  | ["in2", _item, tbl] => (parseBits tbl).map fun f => (st, withSrc st.c (showBool (st.c.shapes.any f)))
+  | ["eqfresh"] => some (st, withSrc st.c "T")
+  | cmd :: ts =>
+    match cmd.splitOn "." with
+    | ["m", t, _] =>
+      match st.get t with
+      | none => none
+      | some l =>
+        match listMut l ((cmd.splitOn ".").getLastD "" :: ts) with
+        | none => none
+        | some none => some (st, "ERR:Index")
+        | some (some l') => some (st.put t l', "-")
+    | ["o", op] =>
+      let r := handleFCOn op st.c (obsRest op ts)
+      if r == "bad-op" then none else some (st, r)
+    | _ => none
+  | [] => none
+
+def runHist (st : HState) : List (List String) → Option (List String)
+  | [] => some []
+  | s :: rest =>
+    match histStep st s with
+    | none => none
+    | some (st', out) => (runHist st' rest).map (out :: ·)
+
+def handleHist (args : List String) : String :=
+  match splitAt "||" args with
+  | [] => "bad-op"
+  | head :: steps =>
+    match splitAt "|" head with
+    | [[k, a], shapes] =>
+      match parseTag k, parseShapes shapes with
+      | some tag, some l =>
+        match Coll.build tag l with
+        | .error e => e
+        | .ok c =>
+          match runHist { c := c, arg := l, al1 := tag == .fc && a == "1" } steps with
+          | some outs => " ; ".intercalate (showColl c :: outs)
+          | none => "bad-op"
+      | _, _ => "bad-op"
+    | _ => "bad-op"
+
 def handle (op : String) (args : List String) : String :=
-  if op == "vertices" then
+  if op == "hist" then handleHist args
+  else if op == "vertices" then
     -- `fc.vertices <geoms for the Python side> | <geometry trees>`
     match splitAt "|" args with
     | [_, toks] =>
